@@ -61,7 +61,7 @@ def _count(counts, rule, n=1):
     counts[rule] = counts.get(rule, 0) + n
 
 
-def strip_docs_and_attrs(text, counts, derive_drop_all=False):
+def strip_docs_and_attrs(text, counts, derive_drop_all=False, derive_keep=DERIVE_KEEP):
     """R5 / R11: remove doc comments and non-executable attributes, reduce derive lists."""
     toks = rsx.lex(text)
     out = []
@@ -93,7 +93,7 @@ def strip_docs_and_attrs(text, counts, derive_drop_all=False):
                     m = re.match(r'^#\s*\[\s*derive\s*\((.*)\)\s*\]$', inner, re.S)
                     if m:
                         names = [x.strip() for x in m.group(1).split(',') if x.strip()]
-                        keep = [x for x in DERIVE_KEEP if x in names or ('core::cmp::' + x) in names]
+                        keep = [x for x in derive_keep if x in names or ('core::cmp::' + x) in names]
                         if derive_drop_all or not keep:
                             new = ''
                         else:
@@ -275,6 +275,11 @@ def load_unit(unit_dir):
     if os.path.exists(cpath):
         with open(cpath, 'rb') as f:
             c = tomllib.load(f)
+        for inc in c.get('include', []):
+            with open(os.path.join(unit_dir, inc), 'rb') as f2:
+                c2 = tomllib.load(f2)
+            for fn in c2.get('fn', []):
+                contracts[norm_item(fn['item'])] = fn
         for fn in c.get('fn', []):
             contracts[norm_item(fn['item'])] = fn
     u['_contracts'] = contracts
@@ -616,7 +621,7 @@ def build(unit_dir, repo='/repo', mutate=None, auto_items=None, vacuity=False):
     open_impl = None
     for ch in chunks:
         text = ch.text
-        text = strip_docs_and_attrs(text, counts, derive_drop_all=(ch.name in derive_drop))
+        text = strip_docs_and_attrs(text, counts, derive_drop_all=(ch.name in derive_drop), derive_keep=DERIVE_KEEP + unit.get('derive_keep', {}).get(ch.name, []))
         # unit-specific hoists (R8/R9/R13) are written against the original repository text
         text = apply_user_rewrites(text, unit.get('rewrite', []), counts, ch.name)
         text = rewrite_macros(text, counts)
